@@ -289,6 +289,36 @@ theorem ovl_fireD (d) : Ovl (fun s => fireD s d) := by
     · rfl
     · exact ovl_contLoop _ _
 
+theorem ovl_fireDIn (d) : Ovl (fun s => fireDIn s d) := by
+  intro s; simp only [fireDIn]; split <;> rfl
+
+/-- a Deferred fired from inside a trigger body (no DeferredList is waiting then: `Ctl3`) -/
+theorem g3_fireDIn {s} (d) (h : G3 s) (hc : s.ctl ≠ .idle) : G3 (fireDIn s d) := by
+  simp only [fireDIn]
+  split
+  · exact h.plain rfl rfl rfl rfl rfl rfl (by simp) rfl (by simp)
+  · have hF : ∀ d', d' ∈ s.fired ++ [d] ↔ Ev.dfired d' ∈ s.log ++ [Ev.dfired d] := by
+      intro d'
+      simp only [List.mem_append, List.mem_singleton, Ev.dfired.injEq, h.fired d']
+    have hmono : ∀ d', Ev.retB (some d') ∈ sinceFire (s.log ++ [Ev.dfired d]) →
+        Ev.retB (some d') ∈ sinceFire s.log := by
+      intro d' hd'
+      rcases mem_sinceFire_snoc (by simp) hd' with hd' | hd'
+      · exact hd'
+      · simp at hd'
+    refine ⟨hF, ?_, runs_plain h.runs rfl⟩
+    have hc3 := h.ctl
+    unfold Ctl3 at hc3 ⊢
+    simp only
+    split at hc3
+    · obtain ⟨h1, h2, h3⟩ := hc3
+      refine ⟨h1, h2, fun d' hd' => ?_⟩
+      rcases h3 d' (hmono d' hd') with hh | hh
+      · exact Or.inl hh
+      · exact Or.inr (List.mem_append_left _ hh)
+    · rename_i hi; exact absurd hi hc
+    · exact ⟨hc3.1, hc3.2.w, hc3.2.gd.snoc rfl⟩
+
 theorem g3_retB_some {s} (d) (g : G3 s) (hc : s.ctl = .runB) :
     G3 (beforeLoop { s with results := s.results ++ [d], log := s.log ++ [.retB (some d)] }) := by
   have hc3 := g.ctl
@@ -365,7 +395,14 @@ theorem g3_step {s} (op : Op) (h : G3' s) : G3' (step s op) := by
       exact g3_fireD d (h hno) hc
     · rename_i hc
       rw [if_neg hc] at hno
-      exact (h hno).plain rfl rfl rfl rfl rfl rfl (by simp) rfl (by simp)
+      split
+      · rename_i ho
+        rw [if_pos ho] at hno
+        exact (h hno).plain rfl rfl rfl rfl rfl rfl (by simp) rfl (by simp)
+      · rename_i ho
+        rw [if_neg ho] at hno
+        rw [ovl_fireDIn d s] at hno
+        exact g3_fireDIn d (h hno) hc
   | ret r =>
     simp only [step] at hno ⊢
     split
